@@ -148,7 +148,7 @@ Section Needed.
     find_auth t_power_levels [] st = find_auth t_power_levels [] st' ->
     ai_pl_present (A e st) = ai_pl_present (A e st') /\ ai_pl (A e st) = ai_pl (A e st').
   Proof.
-    intros HC HP. unfold abs_fixed, abs9_core, abs. cbv zeta. cbn [ai_pl_present ai_pl].
+    intros HC HP. unfold abs_fixed, abs9_core, abs. cbv zeta. cbn [ai_pl_present ai_pl]. unfold pl_of_auths.
     rewrite (create_of_agree f st st' HC), HP. split; reflexivity.
   Qed.
 
